@@ -447,7 +447,29 @@ func repoGarbageCollect(repo Repo, conf config.Config, index types.Index, locked
 	// a digest seen as a config or layer of one manifest may also be a manifest that needs to be walked
 	walked := map[digest.Digest]bool{}
 	// walk all manifests to note seen digests
-	for len(manifests) > 0 {
+	for {
+		if len(manifests) == 0 {
+			// a referrers response that is not retained through its subject is still needed while a referrer
+			// it lists is retained for another reason (e.g. tagged), otherwise that referrer is no longer listed
+			for _, d := range index.Manifests {
+				if d.Annotations == nil || d.Annotations[types.AnnotReferrerSubject] == "" || walked[d.Digest] {
+					continue
+				}
+				resp, err := repoGetIndex(repo, d, locked)
+				if err != nil {
+					continue
+				}
+				for _, rd := range resp.Manifests {
+					if walked[rd.Digest] {
+						manifests = append(manifests, d.Copy())
+						break
+					}
+				}
+			}
+			if len(manifests) == 0 {
+				break
+			}
+		}
 		// work from tail to make deletes easier
 		d := manifests[len(manifests)-1]
 		manifests = manifests[:len(manifests)-1]
